@@ -508,7 +508,7 @@ func runC06R3(c *Ctx, r *Rep) {
 		r.undecided("parser|(*yyLex).readOperator", token.NoPos, "anchor not found")
 	}
 	// bracket counters
-	if fd := c.MethodDecl("parser", "yyLex", "Lex"); fd != nil {
+	if fd := c.MethodDeclX("parser", "yyLex", "Lex"); fd != nil {
 		r.analysed("(*parser.yyLex).Lex")
 		inc := map[string]string{}
 		dec := map[string]string{}
@@ -555,12 +555,16 @@ func runC06R3(c *Ctx, r *Rep) {
 		// NEWLINE and INDENT/DEDENT gated on openBrackets
 		gated := 0
 		ast.Inspect(fd.Body, func(n ast.Node) bool {
-			ifs, ok := n.(*ast.IfStmt)
-			if !ok {
-				return true
-			}
-			if strings.Contains(exprStr(ifs.Cond), "openBrackets()") {
-				gated++
+			switch x := n.(type) {
+			case *ast.IfStmt:
+				if strings.Contains(exprStr(x.Cond), "openBrackets()") {
+					gated++
+				}
+			case *ast.ReturnStmt:
+				// a predicate extracted from such a decision
+				if len(x.Results) == 1 && strings.Contains(exprStr(x.Results[0]), "openBrackets()") {
+					gated++
+				}
 			}
 			return true
 		})
